@@ -17,7 +17,7 @@ with open("/verif/equivalents/RESULTS.md", "w") as f:
     f.write("# Property-preserving re-formulations (round 3) and what the checks answer\n\n"
             "Each directory holds a patch after which the property named by its prefix still holds (verified by the authoring sub-agent: identical digests against the\n"
             "unchanged library, suite 31/31) but the mechanism is written differently.  These are *not* part of the self-test: they document the limit of template rules.\n"
-            "`silent` = all 20 checks exit 0; `cannot decide` = exit 2 (abstention); `VIOLATION` = a false alarm of the listed rules.\n\n"
+            "C17-e1, -e2 and -e4 were withdrawn: they re-formulate the index as it was before the repair of finding F10 (reading the stored cluster mean), which is now itself a violation.\n`silent` = all 20 checks exit 0; `cannot decide` = exit 2 (abstention); `VIOLATION` = a false alarm of the listed rules.\n\n"
             "| change | outcome | checks that are not silent |\n|---|---|---|\n")
     ns = nu = nv = 0
     for tw in sorted(rows):
